@@ -45,19 +45,24 @@ MOD = 'def modboom():\n    raise ValueError("modboom")\n'
 DIMS = [
     ('kind', list(KINDS)),
     ('pos', ['middle', 'first', 'last']),
-    ('pre', ['none', 'want', 'ml']),
+    ('pre', ['none', 'want', 'ml', 'bare']),
     ('verbose', [0, 1, 2, 3]),
 ]
 FILE_LINE_RE = re.compile(r'File "[^"]*", line (\d+),.*wrt source file')
 
 
+NEEDS_HELP = {'helper_short', 'helper_long', 'badrepr', 'badrepr_nowant_print'}
+
+
 def build(kind, pos, pre):
-    lines = list(HELP)
+    # 'bare': nothing at all runs before the failing statement (no helper definitions either), so with
+    # pos == 'first' the failure is recorded before anything has been executed or logged
+    lines = [] if (pre == 'bare' and kind not in NEEDS_HELP) else list(HELP)
     if pre == 'want':
         lines += ['>>> print("w")', 'w']
     elif pre == 'ml':
         lines += ['>>> y = [1,', '...      2]']
-    if pos in ('middle', 'last'):
+    if pos in ('middle', 'last') and not (pre == 'bare' and pos == 'last'):
         lines += ['>>> a = 1']
     fail_at = len(lines)
     lines += KINDS[kind][0]
@@ -155,22 +160,31 @@ class FaultSpec(Spec):
                         s = None
                     if s is not None:
                         outcome.append(harness.verdict_of(s))
+                        flags = {k: bool(s[k]) for k in ('passed', 'failed', 'skipped')}
                         if not s['failed']:
-                            atoms.append({'sig': 'run:not-marked-failed', 'msg': 'summary %r' % ({k: s[k] for k in ('passed', 'failed', 'skipped')},)})
+                            atoms.append({'sig': 'run:not-marked-failed', 'msg': 'summary %r' % (flags,)})
+                        elif flags != {'passed': False, 'failed': True, 'skipped': False}:
+                            atoms.append({'sig': 'run:failed-and-also-' + ('skipped' if flags['skipped'] else 'passed'),
+                                          'msg': 'summary %r: a failed doctest is neither passed nor skipped' % (flags,)})
                         else:
                             check_render(t, kind, exp_line, atoms, 'DocTest.run')
                     harness.forget_modules(modname)
                 # ---- runner ----
                 try:
-                    with contextlib.redirect_stdout(buf), contextlib.redirect_stderr(buf), warnings.catch_warnings():
-                        warnings.simplefilter('ignore')
+                    with contextlib.redirect_stdout(buf), contextlib.redirect_stderr(buf), harness.fresh_process_warning_filters():
                         rs = runner.doctest_module(p, 'all', argv=[], style='freeform', verbose=verbose,
                                                    config={'colored': False})
                     tal = (rs.get('n_total'), rs.get('n_passed'), rs.get('n_failed'))
                     exp_tal = (3, 0, 3) if kind == 'importerror' else (3, 2, 1)
                     outcome.append('%s/%s/%s' % tal)
+                    failed_names = sorted(e.callname for e in rs.get('failed', []))
+                    exp_names = ['bad', 'ok1', 'ok2'] if kind == 'importerror' else ['bad']
                     if tal != exp_tal:
                         atoms.append({'sig': 'runner:tallies', 'msg': '(total, passed, failed)=%r, expected %r' % (tal, exp_tal)})
+                    elif failed_names != exp_names:
+                        atoms.append({'sig': 'runner:failed-list', 'msg': 'failed doctests reported: %r, expected %r' % (failed_names, exp_names)})
+                    elif rs.get('n_skipped'):
+                        atoms.append({'sig': 'runner:failed-also-counted-skipped', 'msg': 'n_skipped=%r' % (rs.get('n_skipped'),)})
                     else:
                         for e in rs['failed']:
                             if e.callname == 'bad':
